@@ -502,3 +502,101 @@ func TestC16Random(t *testing.T) {
 		runRaceProgram(c, sub, prog, 20, 2, gosched)
 	})
 }
+
+const c16cRule = "scale and several instances under the race detector: (a) 6-8 cache instances with memory soft limits whose janitors tick every millisecond for 1.2 s (package-level state shared between instances), " +
+	"(b) a ShardedMap / ShardedMapOf with 33000-40000 entries and a count limit whose cleanup cycles run while 2-4 goroutines write new keys; oracle: the race detector's log does not grow; non-trivial = always"
+
+// TestC16Scale: instances side by side and big caches are free of data races as well.
+func TestC16Scale(t *testing.T) {
+	if raceLogPrefix() == "" && os.Getenv("VERIF_REPLAY") == "" {
+		t.Skip("needs the -race binary with GORACE=log_path=...")
+	}
+
+	runCheck(t, "C16", "C16Scale", c16cRule, func(c *Case) {
+		c.NonTrivial()
+		newRaceReports() // start from the current end of the log
+
+		what := ""
+
+		if c.Bool("big-eviction") {
+			kind := []string{kindSharded, kindShardedOf}[c.Pick("backend", 2)]
+			n := c.Int("entries", 33000, 40000)
+			writers := c.Int("writers", 2, 4)
+			what = fmt.Sprintf("%s with %d entries: cleanup cycles (eviction) || %d writers of new keys", kind, n, writers)
+
+			be := newBackend(kind, cache.Config{
+				TimeToLive: time.Hour, CountSoftLimit: uint64(n - 2000), EvictFraction: 0.1, EvictionStrategy: cache.EvictionStrategy(c.Pick("strategy", 3)),
+				DeleteExpiredJobInterval: farFuture, ItemsCountReportInterval: farFuture,
+			})
+
+			for i := 0; i < n; i++ {
+				_ = be.Write(bg, []byte(fmt.Sprintf("big-%06d", i)), "v")
+			}
+
+			var wg sync.WaitGroup
+
+			stop := make(chan struct{})
+
+			for g := 0; g < writers; g++ {
+				g := g
+
+				wg.Add(1)
+
+				go func() {
+					defer wg.Done()
+
+					for i := 0; ; i++ {
+						select {
+						case <-stop:
+							return
+						default:
+							_ = be.Write(bg, []byte(fmt.Sprintf("new-%d-%06d", g, i)), "w")
+						}
+					}
+				}()
+			}
+
+			for i := 0; i < 3; i++ {
+				be.Cleanup()
+			}
+
+			close(stop)
+			wg.Wait()
+			be.Close()
+		} else {
+			ninst := c.Int("instances", 6, 8)
+			what = fmt.Sprintf("%d instances with memory soft limits, janitors ticking every millisecond for 1.2 s", ninst)
+
+			var insts []Backend
+
+			for i := 0; i < ninst; i++ {
+				be := newBackend(backendKinds[i%len(backendKinds)], cache.Config{
+					TimeToLive: time.Hour, HeapInUseSoftLimit: 1 << 62, SysMemSoftLimit: 1 << 62,
+					DeleteExpiredJobInterval: time.Duration(1+i%3) * time.Millisecond, ItemsCountReportInterval: farFuture,
+				})
+				_ = be.Write(bg, []byte("k"), "v")
+				insts = append(insts, be)
+			}
+
+			time.Sleep(1200 * time.Millisecond)
+
+			for _, be := range insts {
+				be.Close()
+			}
+		}
+
+		c.Tracef("%s", what)
+
+		if rep := newRaceReports(); strings.Contains(rep, "DATA RACE") {
+			c.Failf(raceSignature(rep), "data race while running: %s\n%s", what, firstN(rep, 3000))
+		}
+	})
+}
+
+func firstN(s string, n int) string {
+	if len(s) > n {
+		return s[:n]
+	}
+
+	return s
+}
